@@ -111,6 +111,96 @@ def program_edits(rng, src):
     return out
 
 
+KEYWORDS = {"let", "mut", "if", "else", "match", "for", "in", "fn", "pub", "struct", "enum", "true", "false", "as",
+            "u8", "u16", "u32", "u64", "usize", "i8", "i16", "i32", "i64", "bool", "main", "join", "join_iter", "const"}
+INT_TYPES = ["u8", "u16", "u32", "u64", "usize", "i8", "i16", "i32", "i64"]
+
+
+def mutants(rng, src, n):
+    """random small mutations of a well-typed, fully annotated program: most stay well typed or become
+    ill typed in ways no rule list anticipates (an identifier replaced by another one of the program,
+    a statement deleted or duplicated, two statements swapped, a type or a suffix changed, mut removed,
+    a closing brace moved). Used as: checker accepts => the reference rules (Lang/Wt.v) accept."""
+    out = []
+    idents = sorted(set(re.findall(r"\b[a-z_][a-z0-9_]*\b", src)) - KEYWORDS)
+    uses = [m for m in re.finditer(r"\b[a-z_][a-z0-9_]*\b", src) if m.group(0) not in KEYWORDS]
+    stmts = [m for m in re.finditer(r"(?<=[{;] )(?:let [^;{}]*;|[a-z_][a-z0-9_]* = [^;{}]*;)", src)]
+    for _ in range(n):
+        k = rng.choice(["ident", "ident", "ident", "del", "dup", "swap", "type", "suffix", "unmut", "brace"])
+        t = None
+        if k == "ident" and uses and len(idents) > 1:
+            m = rng.choice(uses)
+            t = src[:m.start()] + rng.choice([i for i in idents if i != m.group(0)]) + src[m.end():]
+        elif k == "del" and stmts:
+            m = rng.choice(stmts); t = src[:m.start()] + src[m.end():]
+        elif k == "dup" and stmts:
+            m = rng.choice(stmts); t = src[:m.end()] + " " + m.group(0) + src[m.end():]
+        elif k == "swap" and len(stmts) > 1:
+            i = rng.randrange(len(stmts) - 1); a, b = stmts[i], stmts[i + 1]
+            if a.end() <= b.start() and "{" not in src[a.end():b.start()] and "}" not in src[a.end():b.start()]:
+                t = src[:a.start()] + b.group(0) + src[a.end():b.start()] + a.group(0) + src[b.end():]
+        elif k == "type":
+            ms = list(re.finditer(r": (u8|u16|u32|u64|usize|i8|i16|i32|i64|bool)\b", src))
+            if ms:
+                m = rng.choice(ms); t = src[:m.start(1)] + rng.choice(INT_TYPES + ["bool"]) + src[m.end(1):]
+        elif k == "suffix":
+            ms = list(re.finditer(r"\d(u8|u16|u32|u64|usize|i8|i16|i32|i64)\b", src))
+            if ms:
+                m = rng.choice(ms); t = src[:m.start(1)] + rng.choice(INT_TYPES) + src[m.end(1):]
+        elif k == "unmut":
+            ms = list(re.finditer(r"let mut ", src))
+            if ms:
+                m = rng.choice(ms); t = src[:m.start()] + "let " + src[m.end():]
+        elif k == "brace":
+            ms = [m for m in re.finditer(r"\} ", src)]
+            if ms and stmts:
+                m = rng.choice(ms); st = rng.choice(stmts)
+                if st.start() > m.end():
+                    t = src[:m.start()] + src[m.end():st.end()] + " } " + src[st.end():]
+        if t and t != src:
+            out.append((k, t))
+    return out
+
+
+def mutation_pass(ck, base, quick):
+    """the checker's verdict on random mutants against the reference rules: every mutant the real checker
+    accepts is exported (typed AST), re-checked by the Gallina rules Lang/Wt.v and run by Sem.v"""
+    rng = ck.rng
+    muts = []
+    for src in base[:30 if quick else 400]:
+        muts += mutants(rng, src, 12 if quick else 40)
+    seen, uniq = set(), []
+    for k, t in muts:
+        if t not in seen:
+            seen.add(t); uniq.append((k, t))
+    recs = PC.run_programs(ck, [("mut-%s-%d" % (k, i), t) for i, (k, t) in enumerate(uniq)], "c17.mut", ninputs=3)
+    acc = [r for r in recs if r["status"] == "compiled"]
+    crash = [r for r in recs if r["status"] == "crash"]
+    bad = 0
+    for r in acc:
+        stuck = [m for m in r.get("model", []) if m.startswith("(stuck")]
+        if r.get("wt") is False or stuck:
+            bad += 1
+            ck.violation("the checker accepts a mutated program that the reference typing rules reject "
+                         f"(Lang/Wt.v verdict {r.get('wt')}, specification interpreter: {(stuck or ['-'])[0][:60]})",
+                         {"program": r["src"], "mutation": r["name"]})
+    for r in crash:
+        if r.get("wt") is not True:
+            bad += 1
+            ck.violation("the compiler panics on a mutated program instead of reporting a type error",
+                         {"program": r["src"], "mutation": r["name"], "rust": r.get("rust_raw", "")[:200]})
+    by_kind = {}
+    for r in recs:
+        k = r["name"].split("-")[1]
+        by_kind.setdefault(k, [0, 0]); by_kind[k][0] += 1; by_kind[k][1] += r["status"] == "compiled"
+    ck.obligation("mutation stream: every mutant the real checker accepts is accepted by the reference rules Lang/Wt.v "
+                  "and never reaches a typing inconsistency in Sem.v; no mutant crashes the compiler", bad == 0,
+                  f"{bad} mutants")
+    ck.coverage["mutation_stream"] = {"mutants": len(uniq), "accepted_by_checker": len(acc),
+                                      "by_kind(tried, accepted)": by_kind}
+    return len(uniq)
+
+
 def run(ck):
     quick = ck.tier == "quick"
     ck.prepare("C17")
@@ -160,8 +250,9 @@ def run(ck):
         elif r.startswith("crash") or "abort" in r or "timeout" in r:
             ck.violation(f"the compiler panics on an ill-typed program instead of reporting a type error: {rule}",
                          {"program": s, "rule": rule, "rust": r[:200]}, key=known_key(rule))
+    n_mut = mutation_pass(ck, base, quick) if ck.model_ok else 0
     ck.coverage.update({
-        "evaluations": len(edits), "distinct_nontrivial": len(set(s for _, s, _ in edits)),
+        "evaluations": len(edits) + n_mut, "distinct_nontrivial": len(set(s for _, s, _ in edits)) + n_mut,
         "rule": "well-typed, fully annotated generated programs (accepted by the real checker) x rule-breaking edits: a "
                 "statement that violates one documented rule inserted at every statement boundary (nested blocks, "
                 "branches, loops, callees), plus whole-program edits (recursion, mutual recursion, unused private fn, "
